@@ -5,7 +5,7 @@ sys.path.insert(0, os.path.join(vlib.VERIF, "tools"))
 import wiregen
 
 HARNESSES = ("wire_h",)
-MLS = ("wire",)
+MLS = ("wire", "reader")
 THEOREMS = []   # filled in below once Props/C01.v exists
 if os.path.exists(os.path.join(vlib.COQ, "Props", "C01.v")):
     import re
@@ -214,15 +214,20 @@ def run(ctx):
             rep.violation("accessor/iterator values differ from independent decoding for %s:\n impl %s\n spec %s" % (h[:200], first[:300], s.split("dump=", 1)[1][:300]),
                           {"cmd": "load d", "input": h, "impl": d, "spec": s})
         ndump += 1
+    rd_cov = {}
+    if not ctx.get("replay"):
+        from props import c01_reader
+        rd_cov = c01_reader.leg(ctx, rep, rnd, tier)
     rep.coverage.update({
-        "evaluations": len(cases), "distinct_nontrivial": len(nontrivial),
+        "evaluations": len(cases) + rd_cov.get("reader_messages_compared", 0), "distinct_nontrivial": len(nontrivial),
         "rule": "structured random valid messages (all types, nested containers, both byte orders, shuffled/unknown header fields); every "
                 "single-byte corruption (5 values, +1, -1) at every offset, truncation at every offset and trailing bytes for the smaller ones; "
                 "hand-aimed cases at validator case splits (fixed-array lengths, booleans, 2^26/2^27 length words, variant signatures, nesting 30..66, "
                 "reserved names, field codes x types, mandatory fields x message types, serial/version); random short buffers. "
                 "non-trivial = the implementation produced a message; distinct = distinct byte strings",
         "samples": [{"kind": k, "hex": h[:160], "impl": i[:120]} for (k, _), h, i in list(zip(cases, hexes, impl))[::max(1, len(cases) // 10)]][:10],
-        "input_distribution": {"kinds": kinds, "corruption_reasons_hit": reasons}, "accessor_dumps_compared": ndump,
+        "input_distribution": {"kinds": kinds, "corruption_reasons_hit": reasons, "reader_leg": {k: v for k, v in rd_cov.items() if k not in ("reader_samples", "reader_rule")}},
+        "accessor_dumps_compared": ndump, "reader_rule": rd_cov.get("reader_rule", ""),
         "traces_validated_against_impl": len(cases), "disagreements_checked": len(rep.violations),
     })
     rep.assumptions = ["loader fed whole buffers here; chunkings are C11", "128 MiB bodies are not materialised: limits are exercised through length words",
